@@ -52,6 +52,8 @@ ASSUMPTIONS = [
     'min_quanta >= 1, quantum >= 1, sample_rate > 0 for roll_constant_waveforms / make_compatible (quantum 0 only as error case)',
 ]
 
+from props.c06_pregen import pregen, GEN_FILE      # translator step: coq/C06/Gen_sfg.v from qupulse/utils/numeric.py
+
 CH = {'A': 0, 'B': 1, 'C': 2}
 OP_TIME_LIMIT = 4.0
 _HANGS = [0]
@@ -86,6 +88,12 @@ def build_wf(d):
                  'linear': LinearInterpolationStrategy()}
         ent = [(float(_fr(t)), float(_fr(v)), strat[ip]) for t, v, ip in d['e']]
         return TableWaveform.from_table(d['ch'], ent)
+    if k == 'ramp':     # linear v0 -> v1 over an exact rational duration (decimal stream: 7/10, 1/3 ...)
+        from qupulse.pulses.interpolation import HoldInterpolationStrategy, LinearInterpolationStrategy
+        dur = _fr(d['d'])
+        return TableWaveform.from_table(d['ch'], [(0, float(_fr(d['v0'])), HoldInterpolationStrategy()),
+                                                  (TimeType.from_fraction(dur.numerator, dur.denominator),
+                                                   float(_fr(d['v1'])), LinearInterpolationStrategy())])
     if k == 'par':
         return MultiChannelWaveform.from_parallel([build_wf(x) for x in d['l']])
     if k == 'seq':
@@ -320,6 +328,8 @@ def _run_impl(case):
         reg = Registry()
         obs = {'input': describe_tree(prog, reg), 'stale': has_stale_index(prog)}
         chans = channels_of(prog)
+        if case['kind'] == 'dec':
+            return _run_dec(case, prog, reg, obs)
         times = grid_for(prog.copy_tree_structure().duration)
         before, end_before = play(prog, chans, times)
         obs['n_times'] = int(len(times))
@@ -420,6 +430,204 @@ def _run_impl(case):
 
 
 # ---------------------------------------------------------------------------------------------------------------------
+# decimal stream: leaf durations k/10, k/5, k/3 ... (not binary fractions), grid points exactly on junctions.
+# Floating point is NOT exact here: sampled values are compared with the exact rational model under the declared absolute
+# tolerance DEC_TOL (a wrong piece at a junction differs grossly: the ramps end at a value different from where they start)
+
+DEC_TOL = F(1, 2 ** 30)
+_STATS = {'inexact_cases': 0, 'inexact_samples': 0, 'inexact_known_finding_cases': 0}
+
+
+def dec_grid(total, sr):
+    """grid points k / sr for k < total * sr, each the correctly rounded double of the exact rational"""
+    import numpy as np
+    n = int(math.floor(total * sr))
+    return np.array([float(F(k) / sr) for k in range(n)], dtype=float)
+
+
+def _samples_json(arr):
+    import numpy as np
+    return [None if np.isnan(x) else vlib.frac_json(float(x)) for x in arr]
+
+
+def _ramp_table(tree, reg):
+    """atom id -> (v0, v1) for the ramps of the recipe (ids as handed out by the describer: equal waveforms, equal id)"""
+    out = {}
+
+    def wf(w):
+        if w['k'] == 'ramp':
+            out[reg.atom(build_wf(w))] = [w['v0'], w['v1']]
+        elif w['k'] in ('seq', 'par'):
+            for x in w['l']:
+                wf(x)
+        elif w['k'] == 'rep':
+            wf(w['b'])
+
+    def rec(t):
+        if t['w'] is not None:
+            wf(t['w'])
+        for c in t['c']:
+            rec(c)
+    rec(tree)
+    return sorted([k, v[0], v[1]] for k, v in out.items())
+
+
+def _run_dec(case, prog, reg, obs):
+    """one rewrite on a program with decimal durations; besides everything the 'rw' cases observe: samples of
+    to_waveform(program) on the junction grid before and after the rewrite, and the structure of both waveforms"""
+    import numpy as np
+    from qupulse.program.loop import to_waveform
+    sr = F(case['sr'])
+    _STATS['inexact_cases'] += 1
+    with vlib.time_limit(60):
+        total = vlib.to_fraction(prog.copy_tree_structure().duration)
+        times = dec_grid(total, sr)
+        obs['n_times'] = int(len(times))
+        obs['ramps'] = _ramp_table(case['build']['tree'], reg)
+        before, end_before = play(prog, ['A'], times)
+        wf = to_waveform(prog.copy_tree_structure())
+        obs['wfb'] = describe_wf(wf, reg)
+        obs['sb'] = _samples_json(np.array(wf.get_sampled('A', times)) if len(times) else np.zeros(0))
+    path, op = case['path'], case['op']
+    try:
+        with vlib.time_limit(op_time_limit()):
+            apply_op(prog, path, op)
+    except vlib.Timeout:
+        obs['hang'] = True
+        _HANGS[0] += 1
+        return obs
+    except (RuntimeError, ValueError, AssertionError, ZeroDivisionError, IndexError) as e:
+        obs['err'] = ERRS[type(e).__name__]
+    obs['prefix'], obs['mid'], obs['last'] = [], obs['input'], [path, op]
+    with vlib.time_limit(60):
+        obs['after'] = describe_tree(prog, reg)
+        obs['dur'] = vlib.frac_json(prog.duration)
+        if 'err' not in obs:
+            try:
+                node = prog.locate(tuple(path))
+                obs['depth'], obs['bal'] = int(node.depth()), bool(node.is_balanced())
+            except IndexError:
+                obs['depth'], obs['bal'] = None, None
+        after, end_after = play(prog, ['A'], times)
+        # the leaf-by-leaf player computes every local time as (grid point - float(exact offset of the leaf)) both
+        # times: the same leaves at the same offsets must give bit-identical samples
+        # (make_compatible replaces leaves by composite waveforms, which sample their parts at float-difference local
+        # times: not the same computation any more, so only the end time is compared exactly there)
+        obs['play_same'] = (op[0] == 'make_compat' or same_arrays(before, after)) and end_before == end_after
+        try:
+            prog.assert_tree_integrity()
+            obs['stale_after'] = has_stale_index(prog)
+        except Exception:
+            obs['stale_after'] = True
+        wf = to_waveform(prog.copy_tree_structure())
+        obs['wfa'] = describe_wf(wf, reg)
+        obs['sa'] = _samples_json(np.array(wf.get_sampled('A', times)) if len(times) else np.zeros(0))
+    _STATS['inexact_samples'] += 2 * len(times)
+    return obs
+
+
+def _desc_pieces(w, rep=1):
+    """pieces (kind, id/values, duration) a described waveform plays, repetitions unrolled"""
+    k = w[0]
+    if k == 'A':
+        return [('A', w[1], F(w[2]))]
+    if k == 'C':
+        return [('C', dict((c, F(v)) for c, v in w[2]), F(w[1]))]
+    if k == 'S':
+        return [p for x in w[1] for p in _desc_pieces(x)]
+    return _desc_pieces(w[1]) * w[2]
+
+
+def _tree_pieces(t):
+    body = (_desc_pieces(t['w']) if t['w'] is not None else []) if not t['c'] else [p for c in t['c'] for p in _tree_pieces(c)]
+    return body * max(t['r'], 0)
+
+
+def dec_expected(pieces, ramps, sr, n):
+    """exact rational voltage of channel A at k / sr (junction belongs to the later piece)"""
+    out = []
+    bounds = []
+    t0 = F(0)
+    for p in pieces:
+        bounds.append((t0, t0 + p[2], p))
+        t0 += p[2]
+    j = 0
+    for k in range(n):
+        t = F(k) / sr
+        while j < len(bounds) and t >= bounds[j][1]:
+            j += 1
+        if j >= len(bounds):
+            out.append(None)
+            continue
+        a, b, p = bounds[j]
+        if p[0] == 'C':
+            out.append(p[1].get(CH['A']))
+        else:
+            v0, v1 = ramps[p[1]]
+            out.append(v0 + (v1 - v0) * (t - a) / p[2])
+    return out
+
+
+def dec_float_path(w, ramps, times):
+    """what the sampling algorithm of Sequence/RepetitionWaveform computes in binary64 when every boundary is the
+    correctly rounded double of the EXACT boundary and the local time handed to a part is `times - float(boundary)`
+    (the reference algorithm; used only to recognise the known finding C06-float-local-time-nested)"""
+    import numpy as np
+    out = np.full(len(times), np.nan)
+    k = w[0]
+    if k == 'A':
+        v0, v1 = (float(x) for x in ramps[w[1]])
+        d = float(F(w[2]))
+        ok = (times >= 0) & (times <= d)
+        out[ok] = v0 + (v1 - v0) * times[ok] / d
+        return out
+    if k == 'C':
+        out[:] = float(dict((c, F(v)) for c, v in w[2])[CH['A']])
+        return out
+    parts = w[1] if k == 'S' else [w[1]] * w[2]
+    t = F(0)
+    for x in parts:
+        end = t + _desc_dur(x)
+        lo, hi = np.searchsorted(times, (float(t), float(end)), 'left')
+        out[lo:hi] = dec_float_path(x, ramps, times[lo:hi] - np.float64(float(t)))
+        t = end
+    return out
+
+
+def _close(xs, ys, tol=DEC_TOL):
+    if len(xs) != len(ys):
+        return False
+    for x, y in zip(xs, ys):
+        if (x is None) != (y is None):
+            return False
+        if x is not None and abs(F(x) - F(y)) > tol:
+            return False
+    return True
+
+
+def dec_verdict(case, obs):
+    """(why the property fails on this observation | None, explained by the reference float path?)"""
+    import numpy as np
+    sr = F(case['sr'])
+    ramps = {k: (F(a), F(b)) for k, a, b in obs['ramps']}
+    n = obs['n_times']
+    exp = dec_expected(_tree_pieces(obs['input']), ramps, sr, n)
+    why = None
+    if not _close(obs['sb'], exp):
+        why = 'to_waveform(program) before the rewrite does not sample to the program\'s voltages (tolerance 2^-30)'
+    elif not _close(obs['sa'], exp):
+        why = 'to_waveform(program) after the rewrite samples differently from the program before the rewrite (tolerance 2^-30)'
+    elif not _close(obs['sa'], obs['sb']):
+        why = 'samples before and after the rewrite differ by more than 2^-30'
+    if why is None:
+        return None, False
+    times = dec_grid(F(n) / sr, sr)
+    fl = lambda w: [None if np.isnan(x) else F(float(x)) for x in dec_float_path(w, ramps, times)]
+    explained = _close(obs['sb'], fl(obs['wfb'])) and _close(obs['sa'], fl(obs['wfa']))
+    return why, explained
+
+
+# ---------------------------------------------------------------------------------------------------------------------
 # Gallina printers
 
 def g_wf(d):
@@ -480,6 +688,11 @@ def to_coq(case, obs):
     else:
         dp = obs['depth'] if obs['depth'] is not None else -1
         o = '(ObsOk %s %s %s %s)' % (g_tree(obs['after']), gQ(F(obs['dur'])), gZ(dp), gbool(bool(obs['bal'])))
+    if case['kind'] == 'dec':
+        gs = lambda l: glist(lambda x: gopt(lambda y: gQ(F(y)), x), l)
+        rt = glist(lambda r: '(%d%%N, (%s, %s))' % (r[0], gQ(F(r[1])), gQ(F(r[2]))), obs['ramps'])
+        return '(CDec %s %s %s %s %s %s %s %s)' % (g_tree(obs['input']), path, g_op(lop), o, gQ(F(case['sr'])), rt,
+                                                   gs(obs['sb']), gs(obs['sa']))
     if case.get('volatile'):
         return '(CSpecOnly %s %s %s %s)' % (g_tree(obs['mid']), path, g_op(lop), o)
     if obs['prefix']:
@@ -499,6 +712,12 @@ def py_spec(case, obs):
     if case['kind'] == 'twf':
         if 'wf' in obs and not obs['twf_same']:
             return 'to_waveform(program) samples differ from the program played leaf by leaf'
+        return None
+    if case['kind'] == 'dec':
+        if not obs.get('play_same', True):
+            return 'leaf-by-leaf samples (or the end time) of the program differ before and after the rewrite'
+        if 'sb' in obs and 'sa' in obs:
+            return dec_verdict(case, obs)[0]
         return None
     if case['kind'] == 'rw':
         if not obs.get('play_same', True):
@@ -576,6 +795,13 @@ def nontrivial(case, obs):
 def histogram_keys(case, obs):
     k = case['kind']
     keys = [k]
+    if k == 'dec':
+        keys.append('dec_op:' + case['op'][0])
+        keys.append('dec_den:%d' % F(case['sr']).numerator)
+        if 'sa' in obs:
+            why, explained = dec_verdict(case, obs)
+            keys.append('dec:' + ('samples_within_tolerance' if why is None else
+                                  'float_local_time_explains_mismatch' if explained else 'unexplained_mismatch'))
     if k == 'rw':
         keys.append('op:' + case['op'][0])
         keys.append('at:' + ('root' if not case['path'] else 'inner'))
@@ -614,8 +840,23 @@ def _has_unaligned_const(t, q, sr):
     return any(_has_unaligned_const(c, q, sr) for c in t['c'])
 
 
+def _is_nested(w):
+    """a composite waveform with a composite part: the part is sampled at local times that are float differences"""
+    if w[0] == 'S':
+        return any(x[0] in ('S', 'R') for x in w[1])
+    if w[0] == 'R':
+        return w[1][0] in ('S', 'R')
+    return False
+
+
 def classify(case, obs):
     """Which listed finding (known_findings.d/C06.json) does this failing case belong to?"""
+    if case['kind'] == 'dec' and 'sa' in obs and obs.get('play_same'):
+        why, explained = dec_verdict(case, obs)
+        if why is not None and explained and _is_nested(obs['wfb']) | _is_nested(obs['wfa']):
+            _STATS['inexact_known_finding_cases'] += 1
+            return 'C06-float-local-time-nested'
+        return None
     if case['kind'] != 'rw' or 'input' not in obs:
         return None
     path, op = obs.get('last', [case['path'], case['op']])
@@ -714,7 +955,7 @@ def g_tree_rec(rng, chans, depth, opts):
 
 def _json_wf_dur(w):
     k = w['k']
-    if k == 'const':
+    if k in ('const', 'ramp'):
         return F(w['d'])
     if k == 'table':
         return F(w['e'][-1][0])
@@ -943,6 +1184,8 @@ def gen_cases(rng, tier, ctx):
                               ['cleanup', False, True], ['merge'], ['merge'], ['split', None]])
         cases.append({'kind': 'rw', 'build': b, 'prefix': [rnd_step() + [False] for _ in range(rng.randint(0, 2))],
                       'path': lp, 'op': lo, 'volatile': True})
+    # --- decimal durations (inexact floating point; tolerance 2^-30) ---------------------------------------------------
+    cases.extend(gen_dec(rng, tier))
     # --- to_waveform -------------------------------------------------------------------------------------------------
     for _ in range(200 * mult):
         b, t = gen_build(rng, tier, meas=False)
@@ -958,6 +1201,102 @@ def gen_cases(rng, tier, ctx):
     if tier == 'thorough':
         cases.extend(exhaustive_small(rng))
     return cases
+
+
+DEC_VALS = ['0', '1', '-1', '1/2', '2', '-1/2', '3', '1/4']
+
+
+def g_dec_leafwf(rng, den, ks):
+    d = F(rng.choice(ks), den)
+    if rng.random() < 0.85:
+        v0, v1 = rng.sample(DEC_VALS, 2)          # the end value differs from the start value
+        return {'k': 'ramp', 'ch': 'A', 'd': str(d), 'v0': v0, 'v1': v1}
+    return {'k': 'const', 'd': str(d), 'v': {'A': rng.choice(DEC_VALS)}}
+
+
+def g_dec_tree(rng, den, ks, depth, top=True):
+    rep = rng.choice([1, 1, 1, 2, 3, 4, 4, 5, 7, 12])
+    if depth <= 0 or (not top and rng.random() < 0.35):
+        return {'r': rep, 'w': g_dec_leafwf(rng, den, ks), 'm': [], 'c': []}
+    n = rng.choice([1, 1, 2, 2, 3])
+    return {'r': rep, 'w': None, 'm': [0] if rng.random() < 0.1 else [],
+            'c': [g_dec_tree(rng, den, ks, depth - 1, False) for _ in range(n)]}
+
+
+def _dec_op(rng, t, sr):
+    """a rewrite + a path it applies to"""
+    inner = paths_of(t, lambda n, p: len(n['c']) >= 1)
+    inner_nonroot = [p for p in inner if p]
+    k = rng.choice(['unroll', 'unroll_children', 'unroll_children', 'split', 'split', 'flatten', 'flatten', 'flatten',
+                    'merge', 'cleanup', 'encapsulate', 'make_compat'])
+    if k == 'unroll' and inner_nonroot:
+        return rng.choice(inner_nonroot), ['unroll']
+    if k == 'unroll_children' and inner:
+        return rng.choice(inner), ['unroll_children']
+    if k == 'split' and inner:
+        p = rng.choice(inner)
+        n = len(_node_at(t, p)['c'])
+        return p, ['split', None if rng.random() < 0.6 else rng.choice(list(range(n)) + [-1])]
+    if k == 'merge':
+        ps = paths_of(t, lambda n, p: len(n['c']) == 1)
+        if ps:
+            return rng.choice(ps), ['merge']
+    if k == 'cleanup':
+        return [], ['cleanup', True, True]
+    if k == 'encapsulate':
+        return rng.choice(paths_of(t)), ['encapsulate']
+    if k == 'make_compat':
+        run = _json_dur(t) * sr
+        q = rng.choice([d for d in range(1, 13) if run % d == 0])
+        return [], ['make_compat', rng.choice([1, q, 2 * q, 3 * q]), q, str(sr)]
+    return (rng.choice(inner) if inner and rng.random() < 0.3 else []), ['flatten', rng.choice([0, 1, 1, 2, 2, 3])]
+
+
+def gen_dec(rng, tier):
+    """programs whose leaf durations are k/10, k/5, k/3, k/7 ... time units; the sample rate is a multiple of the common
+    denominator, so that every junction is a grid point"""
+    cases = []
+    fams = [(10, [1, 1, 2, 3, 7, 7, 11, 13]), (5, [1, 2, 3, 4, 6]), (3, [1, 1, 2, 4, 5]), (10, [1, 3, 7]), (7, [1, 2, 3]),
+            (6, [1, 5]), (15, [1, 2, 7]), (100, [1, 7, 33])]
+
+    def add(t, sr, path, op, style='ctor'):
+        if unrolled_leaves(t) <= 120 and 0 < _json_dur(t) * sr <= 400:
+            cases.append({'kind': 'dec', 'build': {'tree': t, 'style': style, 'read_dur': False}, 'sr': str(sr),
+                          'path': path, 'op': op})
+    # the two shapes in which a repetition meets a copy of its body, x every rewrite that unrolls the repetition
+    dirs = [(F(1, 10), 10), (F(7, 10), 10), (F(3, 10), 10), (F(1, 5), 5), (F(11, 10), 10), (F(1, 3), 3), (F(1, 10), 20),
+            (F(2, 3), 3), (F(1, 7), 7), (F(1, 100), 100)]
+    reps = (2, 4, 7, 12)
+    for d, sr in (dirs if tier == 'thorough' else rng.sample(dirs, 5)):
+        for n in (reps if tier == 'thorough' else rng.sample(reps, 2) + [12]):
+            v0, v1 = rng.sample(DEC_VALS, 2)
+            body = {'k': 'ramp', 'ch': 'A', 'd': str(d), 'v0': v0, 'v1': v1}
+            leaf = lambda r=1: {'r': r, 'w': body, 'm': [], 'c': []}
+            node = lambda c, r=1: {'r': r, 'w': None, 'm': [], 'c': c}
+            node_rep = node([node([leaf()], n), node([leaf()])])
+            leaf_rep = node([node([leaf(n)]), node([leaf()])])
+            add(node_rep, sr, [0], ['unroll'])
+            add(node_rep, sr, [0], ['unroll_children'])
+            add(leaf_rep, sr, [0], ['split', None])
+            add(leaf_rep, sr, [], ['flatten', 1])
+            add(node([leaf(n)]), sr, [], ['unroll_children'])
+            add(node([leaf(n), leaf(2)]), sr, [], ['split', 0])
+    for _ in range({'quick': 170, 'thorough': 2500}[tier]):
+        den, ks = rng.choice(fams)
+        t = g_dec_tree(rng, den, ks, rng.randint(1, 3))
+        sr = F(den * rng.choice([1, 1, 2, 3]))
+        path, op = _dec_op(rng, t, sr)
+        add(t, sr, path, op, rng.choice(['ctor', 'append']))
+    return cases
+
+
+def extra_evidence(ctx):
+    return {'inexact_cases': _STATS['inexact_cases'], 'inexact_samples_compared': _STATS['inexact_samples'],
+            'inexact_tolerance_abs': '2^-30',
+            'inexact_known_finding_cases': _STATS['inexact_known_finding_cases'],
+            'inexact_note': 'decimal stream (kind dec): leaf durations k/10, k/5, k/3 ...; samples are binary64 results '
+                            'compared with the exact rational model under the absolute tolerance; all other cases are '
+                            'compared exactly'}
 
 
 def _shapes(n):
